@@ -11,7 +11,13 @@ trap 'git -C /repo worktree remove --force "$W" >/dev/null 2>&1; rm -rf "$W"' EX
 git -C /repo worktree add --detach "$W" HEAD >/dev/null 2>&1 || { echo "worktree failed"; exit 2; }
 DST=$ROOT/seeded/$NAME; mkdir -p "$DST"; cp -r "$SRC"/. "$DST"/
 rundemo() {
-  if ls "$SRC"/*_test.go >/dev/null 2>&1; then
+  if ls "$SRC"/*.sh >/dev/null 2>&1; then
+    # a shell demonstration: it expects its own directory as <worktree>/_seed/<k>/ and the worktree root as argument
+    k=$(basename "$SRC"); mkdir -p "$W/_seed/$k"; cp -r "$SRC"/. "$W/_seed/$k/"
+    sh=$(ls "$SRC"/*.sh | head -1)
+    (cd "$W" && timeout 600 bash "_seed/$k/$(basename "$sh")" "$W" >/tmp/seedchk.$$.log 2>&1); rc=$?
+    rm -rf "$W/_seed"
+  elif ls "$SRC"/*_test.go >/dev/null 2>&1; then
     pkg=$(grep -h '^package ' "$SRC"/*_test.go | head -1 | awk '{print $2}')
     case "$pkg" in
       seccomp|seccomp_test) sub=. ;;
